@@ -9,6 +9,13 @@
 (*    hash_x, hash_y "ok" or "exc:<Type>";  hash_equal  1 iff both ok and equal                     *)
 (*    sig]           "<Class>.<group>" / "<Class>.@default|@full|@deepcopy|@rebuild"                *)
 (* The expected answer is Expected3 of EqContract.tla; an event may fail several clauses.           *)
+(* History events (op = "mut"): x was built at valuation x (motion mark MotBefore(mk)), compared and *)
+(* hashed first iff warm = 1, then changed in place by the public mutator `mut` of kind mk:          *)
+(*   [cls, x, y, mk, mut, warm, mut_res ("ok" / "exc:<Type>"),                                      *)
+(*    eq_xy, eq_yx, ne_xy   mutated == fresh(y), fresh(y) == mutated, mutated != fresh(y)           *)
+(*    stale_eq              mutated == fresh(x)   (a fresh object with the OLD values)              *)
+(*    hash_x, hash_y, hash_equal   hash(mutated), hash(fresh(y)), equal                             *)
+(*    sig]                  "<Class>.<mutator>" (warm) / "<Class>.<mutator>@cold"                   *)
 EXTENDS EqContract, IOUtils
 Traces == ndJsonDeserialize(IOEnv.TRACE_FILE)
 
@@ -45,7 +52,29 @@ Clauses(e) ==
             THEN {"C12.HashTotal"} ELSE {})
       \cup (IF exp = "T" /\ hok /\ e.hash_equal # 1 THEN {"C12.HashConsistent"} ELSE {})
 
-Verdicts(e) == IF Shape(e) # "" THEN {Shape(e)} ELSE Clauses(e)
+(* ---- history dimension ---- *)
+ShapeMut(e) ==
+  IF e.cls \notin Classes THEN "machinery/unknown-class"
+  ELSE IF ~(IsValuation(e.cls, e.x) /\ IsValuation(e.cls, e.y)) THEN "machinery/bad-valuation"
+  ELSE IF e.mk \notin MutKinds THEN "machinery/unknown-mutator-kind"
+  ELSE IF ~IsMutation(e.cls, e.mk, e.x, e.y) THEN "machinery/not-a-mutation"
+  ELSE IF e.mut_res # "ok" THEN "driver/mutator-raised"      \* the table promises an applicable public mutator
+  ELSE IF {e.eq_xy, e.eq_yx, e.ne_xy, e.stale_eq} \subseteq 0..2 /\ e.hash_equal \in 0..1 /\ e.warm \in 0..1 THEN ""
+  ELSE "machinery/bad-field"
+
+ClausesMut(e) ==
+  LET before == Desc(e.x, MotBefore(e.mk))
+      after  == Desc(e.y, MotAfter(e.mk))
+      differ == ~ExpectedEqD(e.cls, before, after)           \* IsMutation guarantees it; kept for the reader
+  IN  (IF differ /\ e.stale_eq = 1 THEN {"C12.Current/eq-stale"} ELSE {})
+      \cup (IF e.eq_xy # 1 \/ e.eq_yx # 1 THEN {"C12.Current/ne-fresh"} ELSE {})
+      \cup (IF (e.hash_y = "ok" /\ e.hash_x # "ok") \/ (e.hash_x = "ok" /\ e.hash_y = "ok" /\ e.hash_equal # 1)
+            THEN {"C12.Current/hash"} ELSE {})
+      \cup (IF e.eq_xy # e.eq_yx THEN {"C12.Symmetric"} ELSE {})
+      \cup (IF (e.eq_xy \in 0..1 /\ e.ne_xy # 1 - e.eq_xy) THEN {"C12.NeConsistent"} ELSE {})
+
+Verdicts(e) == IF e.op = "mut" THEN (IF ShapeMut(e) # "" THEN {ShapeMut(e)} ELSE ClausesMut(e))
+               ELSE IF Shape(e) # "" THEN {Shape(e)} ELSE Clauses(e)
 
 TInit == tid \in 1..Len(Traces) /\ l = 1 /\ err = 0
 TStep == /\ l <= Len(Traces[tid].ev)
